@@ -114,8 +114,9 @@ def cloud_xy(c):
     ext_n = c["scale"] * c["aspect"] * c["side"]
     es, ns = [], []
     for a, b in c["cells"]:
-        es.append(c["ratio"][0] * ext_e + c["scale"] * (a + JITTER[(5 * a + 3 * b) % 12]))
-        ns.append(c["ratio"][1] * ext_n + c["scale"] * c["aspect"] * (b + JITTER[(a + 7 * b + 4) % 12]))
+        # table jitter plus a micro-jitter unique to the cell, so that no two cells share both offsets (no exact rectangles / cocircular quadruples)
+        es.append(c["ratio"][0] * ext_e + c["scale"] * (a + JITTER[(5 * a + 3 * b) % 12] + 1e-3 * ((31 * a + 17 * b) % 101) / 101.0))
+        ns.append(c["ratio"][1] * ext_n + c["scale"] * c["aspect"] * (b + JITTER[(a + 7 * b + 4) % 12] + 1e-3 * ((13 * a + 29 * b) % 97) / 97.0))
     return es, ns
 
 
